@@ -6,6 +6,7 @@ import (
 	"fmt"
 	"math/rand"
 	"runtime"
+	"sort"
 	"strings"
 	"sync"
 	"sync/atomic"
@@ -352,7 +353,7 @@ func c14Round(e *vfEnv, r *vfkit.R, rng *rand.Rand, round int) {
 					}
 				}
 				r.Violation(fmt.Sprintf("online-counter:%s", topicKind(t.name)), fmt.Sprintf("topic %s counts %d online sessions of a user, %d are attached", topicKind(t.name), pud.online, online[uid]),
-					map[string]any{"topic": t.name, "user": uid.UserId(), "attached_sessions": att, "deleted": pud.deleted, "srvlog": vfSrvLogGrep(60, t.name), "last_sends_of_a_session_of_the_user": c14SendsOf(workers, ua)})
+					map[string]any{"topic": t.name, "user": uid.UserId(), "attached_sessions": att, "deleted": pud.deleted, "srvlog": vfSrvLogGrep(60, t.name), "last_sends_of_a_session_of_the_user": c14SendsOf(workers, ua), "topic_history_per_session": c14TopicHistory(workers, uid, t.name)})
 			}
 		}
 		return true
@@ -451,6 +452,63 @@ func c14LastSends(c *vfClient, n int) []string {
 		if i >= 0 {
 			out = append(out, fmt.Sprintf("%d %s", c.sends[i].T, truncate(c.sends[i].Raw, 200)))
 		}
+	}
+	return out
+}
+
+// c14TopicHistory lists, per session of the user, the requests which name the topic (under either of the
+// user's names for it) with the code of their reply, and the server-initiated frames about it, in time order.
+func c14TopicHistory(workers []*c14Worker, uid types.Uid, topic string) map[string][]string {
+	names := map[string]bool{topic: true}
+	if types.GetTopicCat(topic) == types.TopicCatP2P {
+		if u1, u2, err := types.ParseP2P(topic); err == nil {
+			other := u1
+			if other == uid {
+				other = u2
+			}
+			names[other.UserId()] = true
+		}
+	} else if strings.HasPrefix(topic, "grp") {
+		names[types.GrpToChn(topic)] = true
+	}
+	out := map[string][]string{}
+	for _, wk := range workers {
+		if wk.c.uid != uid {
+			continue
+		}
+		type item struct {
+			t int64
+			s string
+		}
+		var items []item
+		wk.c.mu.Lock()
+		ids := map[string]bool{}
+		for _, sd := range wk.c.sends {
+			for kind, b := range sd.Msg {
+				if m, ok := b.(map[string]any); ok {
+					if tn, _ := m["topic"].(string); names[tn] && (kind == "sub" || kind == "leave" || kind == "del") {
+						ids[sd.Id] = true
+						items = append(items, item{sd.T, fmt.Sprintf("send %s %s unsub=%v id=%s", kind, tn, m["unsub"], sd.Id)})
+					}
+				}
+			}
+		}
+		for _, f := range wk.c.frames {
+			if f.Kind == "ctrl" && (ids[f.str("id")] || (names[f.str("topic")] && f.str("id") == "")) {
+				items = append(items, item{f.T, fmt.Sprintf("recv ctrl id=%s code=%d topic=%s %v", f.str("id"), f.code(), f.str("topic"), f.params())})
+			}
+		}
+		closed := wk.c.closed
+		wk.c.mu.Unlock()
+		sort.SliceStable(items, func(i, j int) bool { return items[i].t < items[j].t })
+		var lines []string
+		for _, it := range items {
+			lines = append(lines, fmt.Sprintf("%d %s", it.t, it.s))
+		}
+		if len(lines) > 60 {
+			lines = lines[len(lines)-60:]
+		}
+		out[fmt.Sprintf("%s closed=%v slow=%v", wk.c.name, closed, wk.slow)] = lines
 	}
 	return out
 }
